@@ -14,11 +14,35 @@ def parseDict (j : Json) : R Dict := do
 
 def optDict (j : Json) : R (Option Dict) := if j.isNull then pure none else some <$> parseDict j
 
+def excKind? : String → Option ExcKind
+  | "fail:secop" => some .secop
+  | "fail:value" => some .value
+  | "fail:key" => some .key
+  | "fail:zerodiv" => some .zerodiv
+  | _ => none
+
+def excName : ExcKind → String
+  | .secop => "secop"
+  | .value => "value"
+  | .key => "key"
+  | .zerodiv => "zerodiv"
+
+def jexc (e : Option ExcKind) : Json := jopt (fun k => Json.str (excName k)) e
+
 def wresWith (f : Json → R α) (j : Json) : R (WRes α) :=
   match j with
-  | .str "fail" => pure .fail
   | .str "none" => pure .retNone
+  | .str t => match excKind? t with
+    | some k => pure (.fail k)
+    | none => throw s!"bad write outcome {t}"
   | _ => .ret <$> f j
+
+def rresWith (f : Json → R α) (j : Json) : R (RRes α) :=
+  match j with
+  | .str t => match excKind? t with
+    | some k => pure (.fail k)
+    | none => throw s!"bad read outcome {t}"
+  | _ => .ok <$> f j
 
 def jdict (d : Dict) : Json := jarr (d.map (fun e => jarr [Json.str e.1, jint e.2]))
 
@@ -27,14 +51,16 @@ def jdict (d : Dict) : Json := jarr (d.map (fun e => jarr [Json.str e.1, jint e.
 def parseSOp (members : List String) (j : Json) : R Op := do
   match (← arr j) with
   | [.str "readStruct", rA, rB] =>
-    let rs ← (← arr rB).mapM optInt
-    return .readStruct (← optDict rA) (fun m => ((members.zip rs).lookup m).join)
+    let rs ← (← arr rB).mapM (rresWith (·.getInt?))
+    return .readStruct (← rresWith parseDict rA) (fun m => ((members.zip rs).lookup m).getD (.fail .secop))
   | [.str "writeStruct", v, wA, wB] =>
     let ws ← (← arr wB).mapM (wresWith (·.getInt?))
-    return .writeStruct (← parseDict v) (← wresWith parseDict wA) (fun m => ((members.zip ws).lookup m).getD .fail)
-  | [.str "readMember", m, rA, rB] => return .readMember (← m.getStr?) (← optDict rA) (← optInt rB)
+    return .writeStruct (← parseDict v) (← wresWith parseDict wA) (fun m => ((members.zip ws).lookup m).getD (.fail .secop))
+  | [.str "readMember", m, rA, rB] =>
+    return .readMember (← m.getStr?) (← rresWith parseDict rA) (← rresWith (·.getInt?) rB)
   | [.str "writeMember", m, v, wA, rA, wB] =>
-    return .writeMember (← m.getStr?) (← v.getInt?) (← wresWith parseDict wA) (← optDict rA) (← wresWith (·.getInt?) wB)
+    return .writeMember (← m.getStr?) (← v.getInt?) (← wresWith parseDict wA) (← rresWith parseDict rA)
+      (← wresWith (·.getInt?) wB)
   | [.str "assignStruct", v] => return .driverAssignStruct (← parseDict v)
   | [.str "assignMember", m, v] => return .driverAssignMember (← m.getStr?) (← v.getInt?)
   | _ => throw s!"bad struct op {j.compress}"
@@ -44,7 +70,8 @@ def evJson : Ev → Json
   | .mem m x => jarr [Json.str "mem", Json.str m, jint x]
 
 def stJson (s : St) : Json :=
-  Json.mkObj [("struct", jdict s.struct), ("mem", jdict s.mem), ("evs", jarr (s.evs.map evJson)), ("ok", Json.bool s.ok)]
+  Json.mkObj [("struct", jdict s.struct), ("mem", jdict s.mem), ("evs", jarr (s.evs.map evJson)), ("ok", Json.bool s.ok),
+              ("exc", jexc s.exc)]
 
 def structCfg (j : Json) : R Cfg := do
   let hr ← fldStrs j "hasR"; let hw ← fldStrs j "hasW"
@@ -63,7 +90,7 @@ def parseFOp (j : Json) : R FOp := do
   match (← arr j) with
   | [.str "writeFloat", x, w] => return .writeFloat (← x.getInt?) (← wresWith (·.getInt?) w)
   | [.str "writeIdx", i, w] => return .writeIdx (← i.getInt?) (← wresWith (·.getInt?) w)
-  | [.str "readIdx", r] => return .readIdx (← optInt r)
+  | [.str "readIdx", r] => return .readIdx (← rresWith (·.getInt?) r)
   | [.str "readFloat"] => return .readFloat
   | [.str "assignIdx", i] => return .driverAssignIdx (← i.getInt?)
   | [.str "assignFloat", x] => return .driverAssignFloat (← x.getInt?)
@@ -74,7 +101,8 @@ def fevJson : FEv → Json
   | .idx i => jarr [Json.str "idx", jint i]
 
 def fstJson (s : FSt) : Json :=
-  Json.mkObj [("idx", jint s.idx), ("value", jint s.value), ("evs", jarr (s.evs.map fevJson)), ("ok", Json.bool s.ok)]
+  Json.mkObj [("idx", jint s.idx), ("value", jint s.value), ("evs", jarr (s.evs.map fevJson)), ("ok", Json.bool s.ok),
+              ("exc", jexc s.exc)]
 
 def parseFRec (j : Json) : R FRec := do
   return { write := ← optInt (← fld j "write"), ok := ← fldBool j "ok", selected := ← optInt (← fld j "selected"),
@@ -102,7 +130,8 @@ def levJson : LEv → Json
 
 def lstJson (s : LSt) : Json :=
   Json.mkObj [("value", jint s.value), ("min", jint s.min), ("max", jint s.max),
-              ("limits", jarr [jint s.limits.1, jint s.limits.2]), ("evs", jarr (s.evs.map levJson)), ("ok", Json.bool s.ok)]
+              ("limits", jarr [jint s.limits.1, jint s.limits.2]), ("evs", jarr (s.evs.map levJson)), ("ok", Json.bool s.ok),
+              ("exc", jexc s.exc)]
 
 def optPair (j : Json) : R (Option (Val × Val)) := do
   if j.isNull then return none
